@@ -36,6 +36,11 @@ struct Arg
     // the same kind also holds a copy of (one clone per stream); copied before every execution on the main thread
     std::unique_ptr<Encoder> enc;
     std::unique_ptr<Status> st;
+    // shared-input family (kinds encshared / statusshared / decshared): the INPUTS - const packets, const frame buffers - are the
+    // same objects for every thread (read-only sharing of inputs is ordinary use); rebuilt before every execution so that no
+    // earlier execution has touched them
+    const std::vector<Packet>* sharedPackets = nullptr;
+    const std::vector<Bytes>* sharedFrames = nullptr;
 };
 
 W& quietW()
@@ -426,11 +431,110 @@ void bodyStatusCopy(int, void* a)
     A.digest = h;
 }
 
+// ---- shared-input family -----------------------------------------------------------------------------------------------
+std::vector<Packet> g_sharedPackets;
+std::vector<Bytes> g_sharedFrames;
+
+void buildSharedInputs()
+{
+    g_sharedPackets.clear();
+    g_sharedFrames.clear();
+    {
+        CaptureModulePayload cm;
+        cm.setUptime(12345);
+        cm.setData("shared-dev", "sn", "hw", "sw", {1, 2});
+        Packet p;
+        p.setPayload(cm);
+        p.setDeviceId(0x31); p.setVendorId(0x0102); p.setTimestamp(0x1111);
+        g_sharedPackets.push_back(p);
+        InterfacePayload ip;
+        ip.setInterfaceId(0x77);
+        uint8_t sids[2] = {1, 2};
+        ip.setData(sids, 2, nullptr, 0);
+        Packet q;
+        q.setPayload(ip);
+        q.setDeviceId(0x31); q.setTimestamp(0x2222);
+        g_sharedPackets.push_back(q);
+        CanPayload c;
+        Bytes d = patt(8, 3);
+        c.setId(0x123);
+        c.setData(d.data(), 8);
+        Packet r;
+        r.setPayload(c);
+        r.setInterfaceId(0x0A0B0C0D); r.setTimestamp(0x3333); r.setCommonFlags(0x21);
+        g_sharedPackets.push_back(r);
+        g_sharedPackets.push_back(genericPacket(1, 100, 9, 4));
+    }
+    Arg tmp;
+    tmp.u = 61;
+    prepDec(tmp);
+    g_sharedFrames = tmp.frames;
+}
+
+void bodyEncShared(int, void* a)
+{
+    Arg& A = *static_cast<Arg*>(a);
+    uint64_t h = 11;
+    Encoder e;
+    e.setDeviceId((uint16_t) A.u);
+    const std::vector<Packet>& in = *A.sharedPackets;
+    for (const Packet& p : in)
+    {
+        auto fr = e.encode(p, DataContext{0, 64});
+        API_POINT();
+        for (auto& f : fr)
+            h = mc::fnv(f.data(), f.size(), h);
+    }
+    auto all = e.encode(in.begin(), in.end(), DataContext{64, 1500});
+    for (auto& f : all)
+        h = mc::fnv(f.data(), f.size(), h);
+    A.digest = h;
+}
+
+void bodyStatusShared(int, void* a)
+{
+    Arg& A = *static_cast<Arg*>(a);
+    uint64_t h = 12;
+    Status st;
+    const std::vector<Packet>& in = *A.sharedPackets;
+    for (const Packet& p : in)
+    {
+        st.update(p);
+        API_POINT();
+        Packet copy(p);
+        h = mc::mix(h, digestPacket(copy));
+        h = mc::mix(h, copy == p);
+    }
+    for (size_t i = 0; i < st.getDeviceStatusCount(); ++i)
+    {
+        h = mc::mix(h, digestPacket(st.getDeviceStatus(i).getPacket()));
+        for (size_t j = 0; j < st.getDeviceStatus(i).getInterfaceStatusCount(); ++j)
+            h = mc::mix(h, digestPacket(st.getDeviceStatus(i).getInterfaceStatus(j).getPacket()));
+    }
+    A.digest = h;
+}
+
+void bodyDecShared(int, void* a)
+{
+    Arg& A = *static_cast<Arg*>(a);
+    uint64_t h = 13;
+    Decoder d;
+    for (const Bytes& f : *A.sharedFrames)
+    {
+        auto pk = d.decode(f.data(), f.size());
+        API_POINT();
+        h = mc::mix(h, pk.size());
+        for (auto& p : pk)
+            h = mc::mix(h, digestPacket(*p));
+    }
+    A.digest = h;
+}
+
 using BodyFn = void (*)(int, void*);
 static void soloDigestsInChild(std::vector<Arg>& solo);
-constexpr int NKIND = 10;
-const char* kBodyName[NKIND] = {"enc", "dec", "tecmp", "status", "build", "deccont", "consume", "enccopy", "deccopy", "statuscopy"};
-BodyFn kBody[NKIND] = {bodyEnc, bodyDec, bodyTecmp, bodyStatus, bodyBuild, bodyDecCont, bodyConsume, bodyEncCopy, bodyDecCopy, bodyStatusCopy};
+constexpr int NKIND = 13;
+const char* kBodyName[NKIND] = {"enc", "dec", "tecmp", "status", "build", "deccont", "consume", "enccopy", "deccopy", "statuscopy", "encshared", "statusshared", "decshared"};
+BodyFn kBody[NKIND] = {bodyEnc, bodyDec, bodyTecmp, bodyStatus, bodyBuild, bodyDecCont, bodyConsume, bodyEncCopy, bodyDecCopy, bodyStatusCopy, bodyEncShared, bodyStatusShared, bodyDecShared};
 
 void prep(Arg& A)
 {
@@ -467,6 +571,22 @@ void reprep(std::vector<Arg>& args)
     for (auto& a : args)
         if (a.kind == 5 && !(a.dec && &a == producer && taken))
             handOver(a, a);
+    // shared-input family: fresh, never-serialised input objects, the same ones for every thread
+    {
+        bool needShared = false;
+        for (auto& a : args)
+            needShared = needShared || a.kind >= 10;
+        if (needShared)
+        {
+            buildSharedInputs();
+            for (auto& a : args)
+                if (a.kind >= 10)
+                {
+                    a.sharedPackets = &g_sharedPackets;
+                    a.sharedFrames = &g_sharedFrames;
+                }
+        }
+    }
     // copy family: one prototype per kind (configured and used once), every thread of that kind gets a copy of it
     bool needEnc = false, needDec = false, needSt = false;
     for (auto& a : args)
@@ -609,7 +729,7 @@ int main(int argc, char** argv)
     }
     // sets whose bodies use up prepared state (rebuilt before every iteration, threads started per iteration): the hand-over pair
     // and the copy family (each thread works on its own copy of one prototype)
-    for (auto& set : std::vector<std::vector<int>>{{5, 6}, {7, 7, 7}, {8, 8}, {9, 9, 9}})
+    for (auto& set : std::vector<std::vector<int>>{{5, 6}, {7, 7, 7}, {8, 8}, {9, 9, 9}, {10, 10, 11}, {10, 11, 12}, {12, 12}})
     {
         const size_t m = set.size();
         std::vector<Arg> solo(m), args(m);
